@@ -536,7 +536,8 @@ package jd
 //@   zip a b c
 //@   universe v []int{0, 1, 2, 3, 4, 5, 6}
 //@   requires validNode(a) && validNode(b) && validNode(c)
-//@   ensures_bounded ret0 == ""
+//@   ensures_bounded !verifCoalescedContext(a, b, v) ==> ret0 == ""
+//@   ensures_bounded verifCoalescedContext(a, b, v) ==> ret0 == ""
 //@   carries C10
 
 //@ contract verifReadPatchVariationsSmall
@@ -545,7 +546,8 @@ package jd
 //@   universe b verifConvNodes(verifSmallArrays(3))
 //@   universe c verifConvNodes(verifSmallArrays(2))
 //@   universe v []int{1, 2, 3, 4, 5, 6}
-//@   ensures_bounded ret0 == ""
+//@   ensures_bounded !verifCoalescedContext(a, b, v) ==> ret0 == ""
+//@   ensures_bounded verifCoalescedContext(a, b, v) ==> ret0 == ""
 //@   carries C10
 
 //@ contract verifReadPatchKeys
